@@ -234,6 +234,30 @@ func c13Random(rr *prng.R, r *fw.Rec) {
 	}
 	doc := O{"arr": items}
 	switch {
+	case kind < 5 && rr.Intn(4) == 0:
+		// the sequence is $ or a variable and the input itself is the array: the
+		// order-by must be applied once to the whole array, also when further
+		// steps follow (a per-member sort would hand back the input order)
+		srt := func(x jast.Node) *jast.Sort {
+			s := sortProgram(terms).(*jast.Sort)
+			s.X = x
+			return s
+		}
+		id := &jast.Name{V: "id"}
+		var tree jast.Node
+		switch rr.Intn(5) {
+		case 0:
+			tree = &jast.Path{Steps: []jast.Node{srt(&jast.Var{Name: ""}), id}}
+		case 1:
+			tree = &jast.Block{Exprs: []jast.Node{&jast.Assign{Name: "v", Val: &jast.Var{Name: ""}}, &jast.Path{Steps: []jast.Node{srt(&jast.Var{Name: "v"}), id}}}}
+		case 2:
+			tree = &jast.Path{Steps: []jast.Node{srt(&jast.Var{Name: ""})}, Keep: true}
+		case 3:
+			tree = &jast.Path{Steps: []jast.Node{&jast.Pred{X: srt(&jast.Var{Name: "$"}), Filters: []jast.Node{&jast.Num{V: 0}}}, id}}
+		default:
+			tree = &jast.Path{Steps: []jast.Node{srt(srt(&jast.Var{Name: ""})), id}}
+		}
+		modelCheck(r, tree, items, "order-by-on-context-array", judge.Opts{EmptyIsUndef: true}, nil)
 	case kind < 5:
 		c13Run(r, sortProgram(terms), doc, terms, items, "order-by")
 	case kind == 5:
@@ -323,7 +347,7 @@ func init() {
 		ID: "C13", Title: "Order-by and $sort return stable, correctly ordered permutations",
 		Rule: "cases: (a) exhaustive: one-term order-by over all 341 arrays of length<=4 on a key domain of 3 values + missing, number and string keys, 3 directions; two-term order-by over all 4369 arrays of length<=3 on the 4x4 key-pair domain x 9 direction pairs; " +
 			"(b) PRNG-generated arrays of 5..8 and 13..200 objects {id,k1,k2,k3} (many ties, missing members), 1..3 terms with every direction, computed keys, $ as key, $sort(a) on number/string arrays, $sort(a,f) with comparators derived from strict weak orders on one or two members, non-boolean and failing comparators, keys of wrong or mixed type. " +
-			"Oracles: reference model (exact) and, independently, direct checks on the output using the unique ids: permutation of the input, adjacent pairs ordered under the key tuple with absent keys last, equal tuples in input order. non-trivial = array of >=2 items; distinct by (program, input)",
+			"order-by applied to $, $$ or a variable when the input itself is the array, followed by a projection, a predicate, [] or a second order-by; Oracles: reference model (exact) and, independently, direct checks on the output using the unique ids: permutation of the input, adjacent pairs ordered under the key tuple with absent keys last, equal tuples in input order. non-trivial = array of >=2 items; distinct by (program, input)",
 		Assumptions: []string{"string order is byte-wise UTF-8 order, which equals code point order"},
 		Plan: func(tier string, seed uint64) *fw.Plan {
 			n1, n2 := c13Ex1N(), c13Ex2N()
